@@ -569,7 +569,7 @@ func TestDriver(t *testing.T) {
 	}
 	r := env.Rand()
 	if env.Tier == "thorough" {
-		enumerate(6, 3, put)
+		enumerate(5, 3, put)
 	} else {
 		enumerate(3, 3, put)
 	}
